@@ -55,8 +55,8 @@ def run(tier):
             # want = [hour, minute, month, day, year]; code row = [pHour, pMinute, zMonth, zDay, zYear, zHour, zMinute]
             got = v[1:]
             exp = [want[0], want[1], want[2], want[3], want[4], want[0], want[1]]
-            if b == 127 or b >= 100:
-                got[4] = exp[4] = 0      # the signed year helper is only required on its documented interval [0, 99]
+            if b >= 127:
+                got[4] = exp[4] = 0      # the signed year helper: 127 overflows int8, 128..255 are negative year offsets (dates before 2000), which it only counts up
             if got != exp:
                 chk.violation('mutation:byte', 'increment helpers on byte %d give (period hour, period minute, month, day, year, hour, minute)=%s, specification %s' % (b, got, exp), {'byte': b})
     seen = len(seen_keys)
@@ -74,5 +74,5 @@ def run(tier):
     chk.add(states=r.distinct, transitions=r.generated, traces_validated_against_impl=seen, spec_rows_compared=seen, periods_swept_natively=nper,
             exhaustive=True, rule='TLC: second counts on a stride of %d plus boundaries (round trip, ranges, negate, compareTo vs neighbours/extremes), all sign-consistent int8 (hour, minute) pairs, all offsets -960..960 under increment15Minutes (closure and the 129-cycle), all 256 byte values through every increment helper; each dumped row compared with the real classes; all 1,843,199 second counts through the real TimePeriod' % step)
     chk.sample({'tlc_rows': rows[:2] + [x for x in rows if x[0] == 'byte'][:1]})
-    chk.assume('documented intervals are read from the doc comments; the signed year helper is only required on [0, 99]')
+    chk.assume('documented intervals are read from the doc comments; the signed year helper is compared on 0..126 (every year 2000..2126: into [0, 99]), not on 127 (int8 overflow) and negative offsets')
     return chk.finish()
